@@ -2070,7 +2070,7 @@ VF_PART(binary_medium)
     if (b.square() && (b.r == a.r || b.r == a.c)) normOps(S, a, b, (id % n) == 128);
   });
 }
-// E2: histories of 2..3 (thorough 4 on the symmetric and sparse storages) mutators on ONE object, all derived requests replayed
+// E2: histories of 2..3 (thorough 4 on the symmetric storage) mutators on ONE object, all derived requests replayed
 VF_PART(history_matrix)
 {
   const uint64_t per = (uint64_t)NMUT * NMUT;
@@ -2086,7 +2086,7 @@ VF_PART(history_matrix)
     for (int op3 = 0; op3 < NMUT; op3++)
     {
       runHistory(S, s, k, mode, {op1, op2, op3});
-      if (C.thorough() && mode == 0 && k == 0 && (s == SYM || isSparseSt(s)))
+      if (C.thorough() && mode == 0 && k == 0 && s == SYM)
         for (int op4 = 0; op4 < NMUT; op4++) runHistory(S, s, k, mode, {op1, op2, op3, op4});
     }
     if (id % 4099 == 17) S.sample("{\"id\":" + std::to_string(id) + ",\"storage\":" + jstr(stName[s]) + ",\"start\":" + jstr(histContent(k).str()) + ",\"history\":" + jstr(histName({op1, op2}) + " > *") + "}");
